@@ -169,6 +169,11 @@ impl Ldap {
         next_ldap_id
     }
 
+    #[cfg(feature = "verif")]
+    pub(crate) fn next_msgid_hook(&mut self) -> i32 {
+        self.next_msgid()
+    }
+
     pub(crate) async fn op_call(
         &mut self,
         op: LdapOp,
